@@ -74,7 +74,7 @@ FRAME_TRANSPORTS = ['csv', 'csv.gz', 'sqlite', 'sqlite.gz']
 # tags of every JSON type, falsy ones included; strings with characters that need escaping in JSON and CSV
 TAGS = [None, None, True, False, 0, 1, -3, 2 ** 40, 0.0, 2.5, -1e-300, 1.7e308, '', 'tag', 'a,"b"\n\\ \tü€',
         'DICTOBSx', 'DICTOBS0', 'NaN', 'null', [], [1, 'a', None, [2.5, {}]], {}, {'a': 1, 'b': [None, False, 'x'], 'c': {'d': ''}}, [0], [None],
-        np.int64(7), np.float64(2.5), np.float64(0.0)]        # numpy scalars are written as JSON numbers
+        np.int64(7), np.float64(2.5), np.float64(0.0), np.float32(1.5), np.int32(-2)]        # numpy scalars are written as JSON numbers
 # ensemble names: prefix traps, a name that looks like the dict placeholder, characters that need escaping in JSON / CSV
 C11_ENS = rt_io.ENS_POOL + ['DICTOBS0', 'E"q', 'ü n,x']
 CORR_TAGS = [None, None, 'corr tag', '', 'a,"b"\n\\ ü', 'pion; kappa=0.13']
@@ -168,8 +168,8 @@ def teardown(ctx):
 
 def plan(tier):
     m = 1 if tier == 'quick' else 20
-    return [('obs', 220 * m), ('list', 150 * m), ('array', 170 * m), ('corr1', 150 * m), ('corrN', 90 * m), ('multi', 80 * m),
-            ('dict', 140 * m), ('frame', 200 * m), ('pickle', 160 * m), ('rew', 120 * m), ('edge', 150 * m), ('history', 160 * m), ('alias', 70 * m), ('reject', 60 * m), ('bulk', 40 * m), ('neartwin', 120 * m)]
+    return [('obs', 180 * m), ('list', 120 * m), ('array', 140 * m), ('corr1', 120 * m), ('corrN', 70 * m), ('multi', 60 * m),
+            ('dict', 110 * m), ('frame', 180 * m), ('pickle', 140 * m), ('rew', 120 * m), ('edge', 150 * m), ('history', 160 * m), ('alias', 70 * m), ('reject', 60 * m), ('bulk', 40 * m), ('neartwin', 100 * m), ('keys', 30 * m), ('compat', 70 * m), ('refuse', 60 * m)]
 
 
 # ------------------------------------------------------------------------------------------
@@ -624,14 +624,23 @@ def json_transport(ctx, rng, x, transport, tmp, opts):
     elif transport == 'method':
         # Obs.dump / Corr.dump (json.gz); other structures go through dump_to_json
         stem = 'm%d' % int(rng.integers(0, 10 ** 6))
+        with_path = bool(rng.integers(0, 2))          # path keyword, or the directory as part of the file name
+        opts['path_keyword'] = with_path
+        pk = {'path': tmp} if with_path else {}
+        fn = stem if with_path else os.path.join(tmp, stem)
         if is_obs(x):
             d = 'descr' if desc is None else desc
-            okw, _ = guarded_write(ctx, x, lambda: x.dump(stem, datatype='json.gz', description=d, path=tmp))
+            if rng.random() < 0.3:
+                okw, _ = guarded_write(ctx, x, lambda: x.dump(fn, description=d, **pk))       # default datatype
+            else:
+                okw, _ = guarded_write(ctx, x, lambda: x.dump(fn, datatype='json.gz', description=d, **pk))
         elif is_corr(x):
-            okw, _ = guarded_write(ctx, x, lambda: x.dump(stem, datatype='json.gz', path=tmp))
+            okw, _ = guarded_write(ctx, x, lambda: x.dump(fn, datatype='json.gz', **pk) if rng.random() < 0.7 else x.dump(fn, **pk))
         else:
             okw, _ = guarded_write(ctx, x, lambda: JIO.dump_to_json(x, os.path.join(tmp, stem), **kw))
         if not okw:
+            return False, None
+        if not ctx.require(os.path.exists(os.path.join(tmp, stem + '.json.gz')), 'json:file-not-at-documented-name', {'given': fn, 'dir': os.listdir(tmp)}):
             return False, None
         full = False
         r = JIO.load_json(os.path.join(tmp, stem), verbose=False)
@@ -747,11 +756,15 @@ def run_dict(ctx, rng, support, tmp, with_empty_list=False):
 
 
 def csv_cells(path, gz):
-    """Cells of a csv file read with the standard library (independent of pandas)."""
-    f = gzip.open(path, 'rt', encoding='utf-8', newline='') if gz else open(path, 'r', encoding='utf-8', newline='')
-    with f:
-        csv.field_size_limit(10 ** 9)
-        return list(csv.reader(f))
+    """Cells of a csv file read with the standard library (independent of pandas).  pandas compresses by file-name
+    extension whatever the gz flag says, so the content decides how the file is opened."""
+    import io
+    with open(path, 'rb') as fb:
+        raw = fb.read()
+    if raw[:2] == b'\x1f\x8b':
+        raw = gzip.decompress(raw)
+    csv.field_size_limit(10 ** 9)
+    return list(csv.reader(io.StringIO(raw.decode('utf-8'), newline='')))
 
 
 ONE_ELEMENT_LIST = 'df:one-element-list-cell-read-back-as-bare-obs'
@@ -813,13 +826,13 @@ def run_frame(ctx, rng, support, transport, tmp):
     frozen = freeze(cols)
     if transport.startswith('csv'):
         stem = os.path.join(tmp, 'frame')
-        given = stem + (str(rng.choice(['', '.csv', '.csv'])) if not gz else str(rng.choice(['', '.csv', '.csv.gz', '.csv.gz', '.csv.gz'])))
+        given = stem + (str(rng.choice(['', '.csv', '.csv', '.csv.gz'])) if not gz else str(rng.choice(['', '.csv', '.csv.gz', '.csv.gz', '.csv.gz'])))
         opts['name'] = given[len(stem):]
         okw, _ = guarded_write(ctx, cols, lambda: PIO.dump_df(df, given, gz=gz))
         if not okw:
             return
-        path = stem + '.csv' + ('.gz' if gz else '')
-        read_name = given if rng.random() < 0.6 else (stem if rng.random() < 0.5 else path)
+        path = given if (given.endswith('.gz') and not gz) else stem + '.csv' + ('.gz' if gz else '')
+        read_name = given if (rng.random() < 0.6 or path == given) else (stem if rng.random() < 0.5 else path)
         if given.endswith('.csv.gz'):
             ctx.count('j:' + CSV_NAME)
         if not os.path.exists(path):
@@ -900,14 +913,17 @@ def run_pickle(ctx, rng, support, idx, tmp):
     name = 'p%d' % int(rng.integers(0, 10 ** 6))
     frozen = freeze(x)
     how = 'dump_object'
+    with_path = bool(rng.integers(0, 2))
+    pk = {'path': tmp} if with_path else {}
+    fn = name if with_path else os.path.join(tmp, name)
     if is_obs(x) and rng.random() < 0.7:
-        how = 'Obs.dump'
-        x.dump(name, datatype='pickle', path=tmp)
+        how = 'Obs.dump' + (' path=' if with_path else '')
+        x.dump(fn, datatype='pickle', **pk)
     elif is_corr(x) and rng.random() < 0.7:
-        how = 'Corr.dump'
-        x.dump(name, datatype='pickle', path=tmp)
+        how = 'Corr.dump' + (' path=' if with_path else '')
+        x.dump(fn, datatype='pickle', **pk)
     else:
-        PE.misc.dump_object(x, name, path=tmp)
+        PE.misc.dump_object(x, fn, **pk)
     ctx.cell(shape_class(x), support, 'pickle')
     path = os.path.join(tmp, name + '.p')
     if not ctx.require(os.path.exists(path), 'pickle:file-not-at-documented-name', {'how': how, 'dir': os.listdir(tmp)}):
@@ -1453,7 +1469,7 @@ def run_bulk(ctx, rng, idx, tmp):
 # ------------------------------------------------------------------------------------------
 # distinct members that the library's own == / hash cannot tell apart (equal elements, order of equivalent inputs)
 # ------------------------------------------------------------------------------------------
-def near_twins(rng, a):
+def near_twins(rng, a, other=None):
     """Observables on a's chains that compare equal to a with the tolerance-based == (and hash alike) but are different
     objects with different content: another tag, numbers shifted far below the == tolerance, another reweighted flag."""
     sc = abs(a.value) + max([float(np.max(np.abs(d))) for d in a.deltas.values() if len(d)] or [0.0])
@@ -1464,7 +1480,12 @@ def near_twins(rng, a):
     t_del = a * (1.0 + 3e-12)              # everything rescaled by 1 + 3e-12
     t_del.tag = None
     t_none = 1.0 * a                       # same numbers, no tag at all
-    return [t_tag, t_val, t_del, t_none]
+    out = [t_tag, t_val, t_del, t_none]
+    if other is not None:
+        t_mean = other - other.value + a.value     # the same central value on different fluctuations
+        t_mean.tag = copy.deepcopy(a.tag)
+        out.append(t_mean)
+    return out
 
 
 def run_neartwin(ctx, rng, idx, tmp):
@@ -1473,7 +1494,7 @@ def run_neartwin(ctx, rng, idx, tmp):
     fam = Family(PE, rng, support, nmin=5, nmax=16, mags='unit' if rng.random() < 0.7 else 'any')
     a = fam.member()
     a.tag = ['point source', 0, None, 'tag'][int(rng.integers(0, 4))]
-    tw = near_twins(rng, a)
+    tw = near_twins(rng, a, fam.member(mag=1.0) if fam.mags == 'unit' else None)
     pool = [a] + tw
     order = [int(i) for i in rng.permutation(len(pool))]           # the original is not always the first one met
     seq = [pool[i] for i in order]
@@ -1546,6 +1567,177 @@ def run_neartwin(ctx, rng, idx, tmp):
     ctx.sample({'structure': shape + ' of near twins', 'support': support, 'order': order, 'tags': [repr(o.tag) for o in seq]})
 
 
+# ------------------------------------------------------------------------------------------
+# dict keys that are not strings (documented: converted to strings), numpy scalars in descriptions and tags
+# ------------------------------------------------------------------------------------------
+
+
+def converted_keys(x):
+    """What the documentation of dump_to_json promises for dict keys that are not strings."""
+    if isinstance(x, dict):
+        out = {}
+        for k, v in x.items():
+            if k is True:
+                k2 = 'true'
+            elif k is False:
+                k2 = 'false'
+            elif k is None:
+                k2 = 'null'
+            elif isinstance(k, str):
+                k2 = k
+            else:
+                k2 = str(k)
+            out[k2] = converted_keys(v)
+        return out
+    if isinstance(x, (list, tuple)):
+        return [converted_keys(v) for v in x]
+    return x
+
+
+def run_keys(ctx, rng, idx, tmp):
+    support = SUPPORTS[idx % 5]
+    pools = [{1: 'a', 2.5: 'b', None: 'c', False: 'd'}, {np.int64(3): [1, {7: 'deep'}]}, {True: 'yes', -4: None}, {0: 0, 0.5: {None: 'n'}},
+             {'outer': {2: 'inner', 3.5: [np.float32(0.25), np.int32(3)]}}, {1e-300: 'tiny', 10 ** 12: 'big'}]
+    where = ['description', 'tag', 'member-tag', 'dict-description'][(idx // 5) % 4]
+    mixed = idx % 3 == 2
+    val = copy.deepcopy(pools[int(rng.integers(0, len(pools)))])
+    if mixed:
+        val['text key'] = 'next to the others'        # string keys next to non-string keys, in one dict
+    exp = converted_keys(val)
+    ctx.cell('keys', where, 'mixed' if mixed else 'non-string', support)
+    # dicts with keys that are not strings are not JSON types: outside the quantifier of C11.  What happens to them is
+    # recorded as telemetry only; what IS judged is that the observables travelling with them are unaffected.
+    ctx.count('telemetry:dicts-with-non-string-keys')
+    o = make_obs(ctx, rng, support)
+    try:
+        if where == 'description':
+            r = JIO.import_json_string(JIO.create_json_string(o, description=val, indent=int(rng.integers(0, 2))), verbose=False, full_output=True)
+            got, back = r['description'], r['obsdata'][0]
+        elif where == 'tag':
+            o.tag = val
+            back = JIO.import_json_string(JIO.create_json_string(o), verbose=False)
+            got = back.tag
+        elif where == 'member-tag':
+            fam = family(ctx, rng, support)
+            ms = [fam.member(), fam.member()]
+            ms[int(rng.integers(0, 2))].tag = val
+            JIO.dump_to_json([ms], os.path.join(tmp, 'keys'))
+            back = JIO.load_json(os.path.join(tmp, 'keys'), verbose=False)
+            got = [b.tag for b in back]
+            exp = [None if m.tag is None else exp for m in ms]
+            o = ms
+        else:
+            JIO.dump_dict_to_json({'o': o}, os.path.join(tmp, 'keysd'), description=val)
+            r = JIO.load_json_dict(os.path.join(tmp, 'keysd'), verbose=False, full_output=True)
+            got, back = r['description'], r['obsdata']['o']
+    except TypeError as e:
+        if mixed and 'keys must be str' in str(e):
+            ctx.count('tag-dict-with-mixed-key-types-refused')
+            return
+        raise
+    ctx.count('telemetry:non-string-keys-converted-as-documented' if json_strict_equal(got, exp) else 'telemetry:non-string-keys-converted-differently')
+    # the observables themselves are untouched by all this
+    prof = Profile('json', check_tag=False)
+    if isinstance(o, list):
+        for b, m in zip(back, o):
+            cmp_snap(ctx, rt_io.snap(b), rt_io.snap(m), prof, 'keys member')
+    else:
+        cmp_snap(ctx, rt_io.snap(back), rt_io.snap(o), prof, 'keys obs')
+    ctx.nontrivial.add(digest('keys', where, mixed, repr(val), any_digest(o)))
+
+
+# ------------------------------------------------------------------------------------------
+# documents in the older layouts the reader says it supports (replica names without separator, Corr tag as a list)
+# ------------------------------------------------------------------------------------------
+def run_compat(ctx, rng, idx, tmp):
+    support = ['one', 'replicas', 'ensembles', 'mixed'][idx % 4]
+    what = ['obs', 'list', 'array', 'corr1', 'corrN'][(idx // 4) % 5]
+    variant = 'corr-tag-list' if (what.startswith('corr') and (idx // 20) % 2 == 0) else 'replica-names-without-separator'
+    fam = family(ctx, rng, support, big=True, allow_bare=False)
+    if what == 'obs':
+        x = fam.member()
+        x.tag = pick_tag(rng)
+    elif what == 'list':
+        x = [[fam.member() for _ in range(int(rng.integers(1, 4)))]]
+    elif what == 'array':
+        x = np.empty((2, 2), dtype=object)
+        for i in range(4):
+            x.flat[i] = fam.member()
+    else:
+        x = make_corr(ctx, rng, support, 1 if what == 'corr1' else 2, fam=fam)
+    ctx.cell('compat', what, support, variant)
+    text = JIO.create_json_string(x, indent=int(rng.integers(0, 2)))
+    doc = pyjson.loads(text)
+    exp = expect_top(x)
+    if variant == 'corr-tag-list':
+        # old layout: the tag of a Corr is the plain list (member tags..., description); there is no prange
+        rt_io.judged(ctx, 'json:old-format:corr-tag-list')
+        for od in doc['obsdata']:
+            od['tag'] = od['tag']['tag']
+        got = JIO.import_json_string(pyjson.dumps(doc), verbose=False)
+        eg, ee = tree(got), tree(exp)
+        ee['prange'] = None
+        cmp_tree(ctx, eg, ee, Profile('json:old-format'), 'x', 'top', None)
+    else:
+        rt_io.judged(ctx, 'json:old-format:replica-names-without-separator')
+        n = 0
+        for od in doc['obsdata']:
+            for ens in od.get('data', []):
+                for rep_ in ens['replica']:
+                    if '|' in rep_['name']:
+                        rep_['name'] = rep_['name'].replace('|', '')
+                        n += 1
+        if n == 0:
+            ctx.count('compat_nothing_to_strip')
+        got = JIO.import_json_string(pyjson.dumps(doc), verbose=False)
+        cmp_tree(ctx, tree(got), tree(exp), Profile('json:old-format'), 'x', 'top', None)
+    ctx.count('roundtrips_compared')
+    ctx.nontrivial.add(digest('compat', variant, any_digest(x)))
+
+
+# ------------------------------------------------------------------------------------------
+# requests the documentation says are refused
+# ------------------------------------------------------------------------------------------
+def run_refuse(ctx, rng, idx, tmp):
+    support = SUPPORTS[idx % 5]
+    row = ['reps-not-alphanumeric-dump', 'reps-not-alphanumeric-load', 'not-a-dict', 'wrong-reps-on-load', 'placeholder-string-inside-list',
+           'placeholder-string-in-nested-dict'][(idx // 5) % 6]
+    o = make_obs(ctx, rng, support)
+    d = {'a': o, 'n': {'b': [o, 'text', {'c': 1}]}}
+    name = os.path.join(tmp, 'refuse')
+    ctx.cell('refuse', row, support)
+    rt_io.judged(ctx, 'jsondict:invalid-request-accepted:' + row)
+    must = None
+    try:
+        if row == 'reps-not-alphanumeric-dump':
+            must = 'alphanumeric'
+            JIO.dump_dict_to_json(d, name, reps=str(rng.choice(['DICT_OBS', 'DICT OBS', 'D-O', ''])))
+        elif row == 'reps-not-alphanumeric-load':
+            must = 'alphanumeric'
+            JIO.dump_dict_to_json(d, name)
+            JIO.load_json_dict(name, verbose=False, reps='DICT_OBS')
+        elif row == 'not-a-dict':
+            must = 'dictionary'
+            JIO.dump_dict_to_json([o, o] if rng.random() < 0.5 else o, name)
+        elif row == 'wrong-reps-on-load':
+            must = 'placeholder'
+            JIO.dump_dict_to_json(d, name, reps='PLACEHOLDER')
+            JIO.load_json_dict(name, verbose=False)
+        elif row == 'placeholder-string-inside-list':
+            must = 'placeholder'
+            d['n']['b'].append('DICTOBS%d' % int(rng.choice([0, 1, 12])))
+            JIO.dump_dict_to_json(d, name)
+        else:
+            must = 'placeholder'
+            d['n']['deep'] = {'s': 'DICTOBS0'}
+            JIO.dump_dict_to_json(d, name)
+    except Exception as e:
+        ctx.count('invalid_requests_refused')
+        ctx.require(must in str(e), 'jsondict:invalid-request-refused-with-unrelated-error:' + row, {'error': repr(e)[:200]})
+        return
+    ctx.violation('jsondict:invalid-request-accepted:' + row, {'row': row})
+
+
 def run_case(ctx, kind, idx, rng):
     with tempfile.TemporaryDirectory(prefix='vmon_C11_', dir='/var/tmp') as tmp:
         support = SUPPORTS[idx % 5]
@@ -1585,5 +1777,11 @@ def run_case(ctx, kind, idx, rng):
             run_bulk(ctx, rng, idx, tmp)
         elif kind == 'neartwin':
             run_neartwin(ctx, rng, idx, tmp)
+        elif kind == 'keys':
+            run_keys(ctx, rng, idx, tmp)
+        elif kind == 'compat':
+            run_compat(ctx, rng, idx, tmp)
+        elif kind == 'refuse':
+            run_refuse(ctx, rng, idx, tmp)
         else:
             raise ValueError(kind)
